@@ -20,7 +20,7 @@
    PARTIAL only in this: "same result on every binding" is proved as "whenever both return a value" (a fast and/or
    operator evaluates both leaves, so an erroring second operand behind a deciding first one is an error before and
    a value after the round trip). *)
-Require Import Base Opcode Tables Ops Tree Opt Flat Run Directives Lexer Parser Print LexProofs PrefixProofs PrintProofs SourceProofs OptSound DumpProofs DumpStruct DumpText FlatE DumpStructE.
+Require Import Base Opcode Tables Ops Tree Opt Flat Run Directives Lexer Parser Print LexProofs PrefixProofs PrintProofs SourceProofs OptSound DumpProofs OptValue StripValue EvalDefs EvalTop DumpStruct DumpText FlatE DumpStructE.
 Open Scope Z_scope.
 
 (* (0) Dump of a compiled program is the structural printing of its tree *)
@@ -56,6 +56,24 @@ Proof. exact roundtrip_value. Qed.
 Theorem C13_same_everything_without_fast_marks : forall fetch custom t, strip t = t ->
   sem fetch custom (strip t) = sem fetch custom t.
 Proof. exact roundtrip_exact. Qed.
+(* the round trip never LOSES a result: whenever the original expression returns a value, the expression read back
+   from its Dump returns that value — evaluated as it stands, or recompiled under any configuration that does not
+   reorder, when all variables are bound (StripValue.v). The converse can fail by design: a fast operator of the
+   original fetches both operands before it looks at the first *)
+Theorem C13_recompiled_keeps_value : forall fetch custom t v, wt fetch custom t ->
+  snd (sem fetch custom t) = Ok v -> snd (sem fetch custom (strip t)) = Ok v.
+Proof. intros fetch custom t v W H. exact (strip_value fetch custom t W v H). Qed.
+Theorem C13_recompiled_keeps_value_cfg : forall fetch custom cfg t v, pass_on cfg "reordering" = false ->
+  wt fetch custom t -> OptValue.vars_ok fetch t ->
+  snd (sem fetch custom t) = Ok v -> snd (sem fetch custom (optimize custom cfg (strip t))) = Ok v.
+Proof. exact strip_value_cfg. Qed.
+Theorem C13_recompiled_keeps_value_compiled : forall fetch custom t v, wt fetch custom t ->
+  snd (eval fetch custom (compile t)) = MVal v -> snd (eval fetch custom (compile (strip t))) = MVal v.
+Proof.
+  intros fetch custom t v W H. rewrite run_compile_correct in *. unfold sem_obs in *. cbn [snd] in *.
+  destruct (snd (sem fetch custom t)) as [v0|e] eqn:E; [|discriminate]. inversion H; subst v0.
+  pose proof (strip_value fetch custom t W v E) as S. unfold OptValue.val in S. rewrite S. reflexivity.
+Qed.
 
 (* (4) the second round trip is the identity *)
 Theorem C13_second_dump : forall c t, twf c (strip t) ->
